@@ -12,7 +12,14 @@ ASSUMPTIONS = [
 
 def explore(ctx):
     n = 260 if ctx.tier == "quick" else 4000
-    return ce.explore_cache(ctx, PROPS, n, steps=6)
+    res = ce.explore_cache(ctx, PROPS, n, steps=6)
+    # C03_end_to_end_norm: the same with stores that normalise (driver `execn`, independent from-scratch evaluator)
+    from harness import norm_exec
+    rn = norm_exec.explore_norm(ctx, 60 if ctx.tier == "quick" else 1200, steps=5, props=PROPS, salt=43)
+    res["violations"] += rn["violations"]
+    res["disagreements"] += rn["disagreements"]
+    res["coverage"].update(rn["coverage"])
+    return res
 
 
 def search(ctx, broken):
@@ -25,10 +32,17 @@ def search(ctx, broken):
         c.seed = ctx.seed + 977 * k
         c.driver = None
         found += ce.explore_cache(c, PROPS, 400, steps=7)["violations"]
+        if not found:
+            from harness import norm_exec
+            found += norm_exec.explore_norm(c, 300, steps=5, props=PROPS, salt=43)["violations"]
         if found:
             break
     return found
 
 
 def replay(ctx, payload):
+    w = payload.get("witness", payload)
+    if isinstance(w, dict) and w.get("kind") == "norm":
+        from harness import norm_exec
+        return norm_exec.replay_norm(ctx, w, PROPS)
     return ce.replay_cache(ctx, payload.get("witness", payload), PROPS)
